@@ -34,6 +34,7 @@ func vfAllocMax() int
 func vfAllocExplore(n int)
 func vfModelBug(id string)
 func vfPoolMode(mode int)
+func vfCPUAll()
 func vfStrBytes(s string) []byte
 func vfUF(name string)
 func vfUFOff(name string)
@@ -126,6 +127,7 @@ func vfKnown(id string)   { vfKnownCur = id }
 func vfKnownEnd()         { vfKnownCur = "" }
 func vfModelBug(id string) { vfModelBugs = append(vfModelBugs, id) }
 func vfPoolMode(mode int) {}
+func vfCPUAll()            {}
 func vfStrBytes(s string) []byte { return unsafe.Slice(unsafe.StringData(s), len(s)) }
 func vfUF(name string)         {}
 func vfUFOff(name string)      {}
